@@ -138,5 +138,6 @@ Section Mon.
     | _, _ => true
     end.
 End Mon.
+(* wf_b: hypothesis of the run-level theorems (props/C12.v), evaluated on every method *)
 Definition holds_b (i : input) (o : output) : bool :=
-  match i with (p, fl, ts) => walk p (tview0 p) ts o end.
+  match i with (p, fl, ts) => wf_b p && walk p (tview0 p) ts o end.
